@@ -1,8 +1,9 @@
 //! C13 on a started runtime: a task is cancelled *while it is in progress* (the signal path of `try_cancel_task`);
 //! the other tasks of the runtime must all finish with their own values.
-//! body: `<loops> <n tasks> <spin|yield> <victim> <cancel after ms>`
-//!   every task works for 300 ms: `spin` = busy loop without yielding, `yield` = 200 µs of work, then a plain yield
-//! out : `others=<finished with their own value>/<n-1> victim=<done|cancelled> foreign=<other tasks that never finished>`
+//! body: `<loops> <n tasks> <spin|yield|sleep> <victim> <cancel after ms>`
+//!   every task works for 300 ms: `spin` = busy loop without yielding, `yield` = 200 µs of work, then a plain yield,
+//!   `sleep` = three hooked 100 ms sleeps (the task is parked in a timer when the cancel arrives)
+//! out : `others=<finished with their own value>/<n-1> victim=<done|cancelled> foreign=<other tasks that never finished> vjoin=<what a 1.5 s join of the cancelled task returns: cancelled|value|timeout|->`
 use crate::rng::Rng;
 use open_coroutine_core::config::Config;
 use open_coroutine_core::net::EventLoops;
@@ -13,7 +14,7 @@ use std::time::{Duration, Instant};
 pub fn gen(r: &mut Rng, _thorough: bool) -> String {
     let loops = *r.pick(&[1u64, 1, 2]);
     let n = r.range(2, 6);
-    let work = *r.pick(&["yield", "yield", "spin"]);
+    let work = *r.pick(&["yield", "yield", "spin", "sleep", "sleep"]);
     format!("{loops} {n} {work} {} {}", r.below(n), *r.pick(&[20u64, 60, 120]))
 }
 
@@ -25,6 +26,7 @@ pub fn exec(body: &str, emit: &mut dyn FnMut(&str)) {
     if w.len() != 5 { emit("BADCASE"); return; }
     let (loops, n, victim, after): (usize, usize, usize, u64) = (w[0].parse().unwrap_or(1), w[1].parse().unwrap_or(2), w[3].parse().unwrap_or(0), w[4].parse().unwrap_or(50));
     let spin = w[2] == "spin";
+    let sleepy = w[2] == "sleep";
     let mut cfg = Config::single();
     _ = cfg.set_event_loop_size(loops).set_hook(false).set_max_size(64);
     EventLoops::init(&cfg);
@@ -33,7 +35,13 @@ pub fn exec(body: &str, emit: &mut dyn FnMut(&str)) {
     for i in 0..n {
         let h = EventLoops::submit_task(None, move |_| {
             let t = Instant::now();
-            while t.elapsed() < Duration::from_millis(300) {
+            if sleepy {
+                for _ in 0..3 {
+                    let ts = libc::timespec { tv_sec: 0, tv_nsec: 100_000_000 };
+                    _ = open_coroutine_core::syscall::nanosleep(None, &ts, std::ptr::null_mut());
+                }
+            }
+            while !sleepy && t.elapsed() < Duration::from_millis(300) {
                 let s = Instant::now();
                 while s.elapsed() < Duration::from_micros(200) { std::hint::spin_loop(); }
                 if !spin { if let Some(sus) = SchedulableSuspender::current() { sus.suspend(); } }
@@ -57,6 +65,16 @@ pub fn exec(body: &str, emit: &mut dyn FnMut(&str)) {
         if let Ok(Ok(Some(v))) = handles[i].timeout_join(Duration::from_millis(500)) { if v == 1000 + i { own += 1; } }
     }
     let foreign = (0..n).filter(|&i| i != victim && mask & (1 << i) == 0).count();
-    emit(&format!("others={own}/{} victim={} foreign={foreign}", n - 1, if mask & (1 << victim) != 0 { "done" } else { "cancelled" }));
+    let vdone = mask & (1 << victim) != 0;
+    let vjoin = if vdone { "-".to_string() } else {
+        match handles[victim].timeout_join(Duration::from_millis(1500)) {
+            Ok(Err(m)) if m.contains("cancel") => "cancelled".to_string(),
+            Ok(Err(_)) => "error".to_string(),
+            Ok(Ok(_)) => "value".to_string(),
+            Err(e) if e.kind() == std::io::ErrorKind::TimedOut => "timeout".to_string(),
+            Err(_) => "failed".to_string(),
+        }
+    };
+    emit(&format!("others={own}/{} victim={} foreign={foreign} vjoin={vjoin}", n - 1, if vdone { "done" } else { "cancelled" }));
     for h in handles { std::mem::forget(h); }
 }
